@@ -215,6 +215,8 @@ type gfunc struct {
 	ret    *gty
 	body   *gnode
 	annot  []bool // which parameters carry a type annotation
+	rec    bool   // recursive on its first (int) parameter: callers pass a small literal there
+	retAnn bool   // the result type is annotated (needed for recursion)
 }
 
 // ---------- S-expression (for the reference evaluator)
@@ -698,6 +700,9 @@ func (f *gfunc) src(l *glayout, erase []bool) string {
 			sb.WriteString(" (" + p + ":" + f.ptys[i].fo() + ")")
 		}
 	}
+	if f.retAnn {
+		sb.WriteString(" : " + f.ret.fo())
+	}
 	sb.WriteString(" =" + l.eol() + "\n")
 	ind := strings.Repeat(" ", l.indentDelta())
 	sb.WriteString(f.body.asBlock(l, ind))
@@ -827,7 +832,12 @@ func (g *ggen) inline(env genv, t *gty, d int) *gnode {
 	if len(cands) > 0 && g.r.Intn(4) == 0 {
 		f := cands[g.r.Intn(len(cands))]
 		e := &gnode{op: "call", s: f.name, n: len(f.params), t: t}
-		for _, pt := range f.ptys {
+		for i, pt := range f.ptys {
+			if f.rec && i == 0 {
+				e.kids = append(e.kids, &gnode{op: "int", n: g.r.Intn(5), t: tInt})
+				g.hit("recursive-call")
+				continue
+			}
 			e.kids = append(e.kids, g.inline(env, pt, d-1))
 		}
 		g.hit("call-full")
@@ -1039,6 +1049,10 @@ func (g *ggen) partialOf(env genv, t *gty) *gnode {
 	k := len(f.ptys) - len(t.ps)
 	e := &gnode{op: "call", s: f.name, n: len(f.params), t: t}
 	for i := 0; i < k; i++ {
+		if f.rec && i == 0 {
+			e.kids = append(e.kids, &gnode{op: "int", n: g.r.Intn(5), t: tInt})
+			continue
+		}
 		e.kids = append(e.kids, g.pure(env, f.ptys[i]))
 	}
 	g.hit("partial-application")
@@ -1345,6 +1359,25 @@ func (g *ggen) block(env genv, t *gty, d int) *gnode {
 func (g *ggen) program(name string) []*gfunc {
 	var fs []*gfunc
 	env := genv{funcs: gHelperFuncs()}
+	if g.r.Intn(3) == 0 {
+		// a recursive function: counts its first parameter down to 0, threading an accumulator
+		rt := []*gty{tInt, tStr}[g.r.Intn(2)]
+		f := &gfunc{name: name + "_r", params: []string{"n", "acc"}, ptys: []*gty{tInt, rt}, ret: rt,
+			annot: []bool{true, true}, rec: true, retAnn: true}
+		envr := env.with("n", tInt).with("acc", rt)
+		nv := &gnode{op: "var", s: "n", t: tInt}
+		base := &gnode{op: "block", t: rt, kids: []*gnode{g.inline(envr, rt, 1)}}
+		next := &gnode{op: "call", s: f.name, n: 2, t: rt, kids: []*gnode{
+			{op: "bin", s: "-", t: tInt, kids: []*gnode{nv, {op: "int", n: 1, t: tInt}}},
+			g.inline(envr, rt, 2)}}
+		step := &gnode{op: "block", t: rt, kids: []*gnode{next},
+			stmts: []*gstmt{{kind: "do", e: &gnode{op: "printf1", s: "r%d;\n", t: tUnit, kids: []*gnode{nv}}}}}
+		cond := &gnode{op: "bin", s: "<=", t: tBool, kids: []*gnode{nv, {op: "int", n: 0, t: tInt}}}
+		f.body = &gnode{op: "block", t: rt, kids: []*gnode{{op: "if", t: rt, kids: []*gnode{cond, base, step}}}}
+		fs = append(fs, f)
+		env.funcs = append(env.funcs, f)
+		g.hit("recursive-function")
+	}
 	nh := g.r.Intn(3)
 	for i := 0; i < nh; i++ {
 		f := &gfunc{name: name + "_h" + strconv.Itoa(i)}
